@@ -63,4 +63,4 @@ def stage(ctx):
 
 def run(ctx):
     return run_solver_property(ctx, "C06", codes=("C06",), focus_mix=("mixed", "bounds"), n_quick=16,
-                               extra_theorem_files=("Properties_IPMControl.v", "Properties_Bounds.v", "Properties_C08_interior.v", "Properties_C14.v"), extra_stage=stage)
+                               extra_theorem_files=("Properties_IPMControl.v", "Properties_Bounds.v", "Properties_C08_interior.v", "Properties_C14.v", "Properties_C02_loop.v"), extra_stage=stage)
